@@ -85,6 +85,12 @@ def check(out, ctx):
         if c.impl["k"] in ("TIMEOUT", "CRASH"):
             out.violation("c07term:" + key, "parse with a @leftrec rule did not terminate / crashed on %r" % c.inp, common.case_payload(c, st))
             continue
+        # the growth procedure of the property text is the model's grow loop (C07_grow): a different tree or
+        # a different acceptance is a violation with this input as the replay
+        if c.model["k"] in ("OK", "ERR") and c.impl["k"] in ("OK", "ERR"):
+            if c.impl["k"] != c.model["k"] or (c.impl["k"] == "OK" and c.impl["tree"] != c.model["tree"]):
+                out.violation("c07growth:" + key, "result of a @leftrec rule on %r is not the longest strict growth (the model's grow loop returns a different tree)" % c.inp,
+                              common.case_payload(c, st))
         if c.impl.get("spec") == "sentinel":
             out.violation("c07sentinel:" + key, "LeftRecursionSentinel surfaced", common.case_payload(c, st))
         # reference for the plain shapes when the exported rule starts directly with the LR leaf... use
